@@ -1,5 +1,6 @@
 import BeyondVerif.Props.C03
 import BeyondVerif.Model.CcsdsDate
+import BeyondVerif.Model.DateIter
 import BeyondVerif.Generated.CcsdsDates
 
 /-!
@@ -19,6 +20,8 @@ readings) instantiated with the configuration regenerated from /repo on every ru
 * `date + t` — `add_carries_record_of_utc_day` (the result carries the record of ITS OWN UTC day, not the operand's),
   `add_function_of_instant` (same instant in two labels, same `t` ⇒ same instant and same record),
   `add_after_relabel`, `add_is_constructor`;
+* iteration — `range_dates_are_sums`, `range_dates_carry_record` (every date yielded by `DateRange` / `Ephem.iter` is the
+  previous one `+ step` and carries the record of its own UTC day);
 * what the operations read from a date — `consumers_function_of_instant` (time since epoch, ordering, equality, hash,
   interpolation abscissa), `utc_fields_function_of_instant` (the UTC calendar reading handed to SGP4 / written to a TLE),
   `consumers_within_slack` (UT1 / TDB: 2 µs);
@@ -284,6 +287,76 @@ theorem add_after_relabel {env : Env} {x r y z : Date} {new : Nat} {t : Int} (hx
   have hc'' : Clean env r.scale (clock r + 10 * t) := hs ▸ hc'
   obtain ⟨a, b, c⟩ := add_function_of_instant hx hwr hsc hscr hi.symm h h' hc hc'' hl (by rw [hl', hleap]) hleap.symm
   exact ⟨b, c, a⟩
+
+/-! ## iteration: `DateRange`, `Ephem.iter`, every `date += step` of the propagators -/
+
+/-- **every date an iteration yields after the first is the previous one `+ step`** — made by the constructor, never
+patched up from the previous date -/
+theorem range_dates_are_sums {env : Env} {stop : Date} {step : Int} {incl : Bool} :
+    ∀ (fuel : Nat) (cur : Date) (l : List Date), rangeIter cfg env stop step incl fuel cur = .ok l →
+      l.IsChain (fun a b => add cfg env a step = .ok b) ∧ ∀ h ∈ l.head?, h = cur := by
+  intro fuel
+  induction fuel with
+  | zero => intro cur l h; simp [rangeIter] at h
+  | succ n ih =>
+    intro cur l h
+    unfold rangeIter at h
+    split at h
+    · split at h
+      · cases h
+      · next nxt hadd =>
+        split at h
+        · cases h
+        · next l' hl' =>
+          cases h
+          obtain ⟨hc, hh⟩ := ih nxt l' hl'
+          refine ⟨?_, by simp⟩
+          cases l' with
+          | nil => exact List.IsChain.singleton _
+          | cons b t =>
+            have hb : b = nxt := hh b (by simp)
+            subst hb
+            exact List.IsChain.cons_cons hadd hc
+    · cases h
+      exact ⟨List.IsChain.nil, by simp⟩
+
+/-- **every date an iteration yields carries the record of its own UTC day and the label of the start** (UTC, TAI, TT,
+GPS; steps of either sign; readings covered by the tables) -/
+theorem range_dates_carry_record {env : Env} {stop : Date} {step : Int} {incl : Bool} :
+    ∀ (fuel : Nat) (start : Date) (l : List Date), WF cfg env start → start.scale ∈ uniformIx → RecOK env start →
+      (∀ k : Nat, Clean env start.scale (clock start + 10 * (k * step))) →
+      rangeIter cfg env stop step incl fuel start = .ok l → ∀ x ∈ l, RecOK env x ∧ x.scale = start.scale := by
+  intro fuel
+  induction fuel with
+  | zero => intro start l _ _ _ _ h; simp [rangeIter] at h
+  | succ n ih =>
+    intro start l hw hsc hr hcl h
+    unfold rangeIter at h
+    split at h
+    · split at h
+      · cases h
+      · next nxt hadd =>
+        split at h
+        · cases h
+        · next l' hl' =>
+          cases h
+          have h1 := hcl 1
+          simp only [Nat.cast_one, one_mul] at h1
+          obtain ⟨hrn, hsn, hck, hwn⟩ := add_carries_record_of_utc_day hw hsc hadd h1
+          have hcl' : ∀ k : Nat, Clean env nxt.scale (clock nxt + 10 * (k * step)) := by
+            intro k
+            have := hcl (k + 1)
+            have e : clock start + 10 * (((k + 1 : Nat) : Int) * step) = clock nxt + 10 * (k * step) := by
+              rw [hck]; push_cast; ring
+            rw [e] at this
+            rw [hsn]; exact this
+          intro x hx
+          rcases List.mem_cons.mp hx with rfl | hx
+          · exact ⟨hr, rfl⟩
+          · obtain ⟨a, b⟩ := ih nxt l' hwn (hsn ▸ hsc) hrn hcl' hl' x hx
+            exact ⟨a, b.trans hsn⟩
+    · cases h
+      intro x hx; simp at hx
 
 /-! ## what the operations read from a date -/
 
